@@ -145,6 +145,60 @@ def builders(model):
     for f in ('R', 'C'):
         B['ProductSpaceOperator[[A,B],[0,C]][%s]' % f] = (
             lambda I, S, f=f: block(I, S, f))
+    # tensor_ops: matrix, sampling and flattening operators
+    def mat(name, shape, cx=False):
+        a = _np.empty(shape, dtype=object)
+        for idx in _np.ndindex(*shape):
+            a[idx] = sym_scalar(name + ''.join(map(str, idx)), cx)
+        return NA(a, 'complex128' if cx else 'float64')
+
+    def sp(shape, w=None, cx=False, cv=None):
+        return NSpace(shape, 'complex128' if cx else 'float64',
+                      None if w is None else Rat.var(w),
+                      cell_volume=None if cv is None else Rat.var(cv))
+    B['MatrixOperator[unweighted]'] = lambda I, S: inst(
+        I, 'MatrixOperator', mat('m', (3, 2)), domain=sp((2,)),
+        range=sp((3,)))
+    B['MatrixOperator[default domain and range]'] = lambda I, S: inst(
+        I, 'MatrixOperator', mat('m', (3, 2)))
+    B['MatrixOperator[complex]'] = lambda I, S: inst(
+        I, 'MatrixOperator', mat('m', (3, 2), True),
+        domain=sp((2,), cx=True), range=sp((3,), cx=True))
+    B['MatrixOperator[real matrix, complex spaces]'] = lambda I, S: inst(
+        I, 'MatrixOperator', mat('m', (3, 2)),
+        domain=sp((2,), cx=True), range=sp((3,), cx=True))
+    B['MatrixOperator[weighted domain w, inferred range]'] = (
+        lambda I, S: inst(I, 'MatrixOperator', mat('m', (3, 2)),
+                          domain=sp((2,), 'w')))
+    B['MatrixOperator[weighted domain w, weighted range p0]'] = (
+        lambda I, S: inst(I, 'MatrixOperator', mat('m', (3, 2)),
+                          domain=sp((2,), 'w'), range=sp((3,), 'p0')))
+    B['MatrixOperator[2-d domain, axis=1]'] = lambda I, S: inst(
+        I, 'MatrixOperator', mat('m', (2, 3)), domain=sp((2, 3)), axis=1)
+    B['MatrixOperator[2-d domain, axis=0]'] = lambda I, S: inst(
+        I, 'MatrixOperator', mat('m', (3, 2)), domain=sp((2, 3)), axis=0)
+    PTS = [[0, 1, 0], [1, 2, 1]]         # index (0, 1) occurs twice
+    for tag, k in (('discretized', dict(w='w', cv='w')),
+                   ('unweighted', dict()),
+                   ('weighted tensor space', dict(w='w')),
+                   ('discretized, weight != cell volume',
+                    dict(w='w', cv='p0'))):
+        for var in ('point_eval', 'integrate'):
+            B['SamplingOperator[%s,%s]' % (tag, var)] = (
+                lambda I, S, k=k, var=var: inst(
+                    I, 'SamplingOperator', sp((2, 3), **k), PTS, var))
+        for var in ('char_fun', 'dirac'):
+            B['WeightedSumSamplingOperator[%s,%s]' % (tag, var)] = (
+                lambda I, S, k=k, var=var: inst(
+                    I, 'WeightedSumSamplingOperator', sp((2, 3), **k), PTS,
+                    var))
+        for order in ('C', 'F'):
+            B['FlatteningOperator[%s,order=%s]' % (tag, order)] = (
+                lambda I, S, k=k, order=order: inst(
+                    I, 'FlatteningOperator', sp((2, 3), **k), order=order))
+        B['FlatteningOperator.inverse[%s]' % tag] = (
+            lambda I, S, k=k: I.getattr_value(inst(
+                I, 'FlatteningOperator', sp((2, 3), **k)), 'inverse'))
     # arithmetic on top of concrete leaves (dunders of Operator)
     B['expr:(s*RealPart + ImagPart)[C]'] = (
         lambda I, S: I.binop(ast.Add, I.binop(ast.Mult, Rat.var('s'), inst(
@@ -179,7 +233,14 @@ def evaluate(model, build):
     res = {'dom': dom, 'ran': ran}
     x = sym_in(dom, 'x')
     y = sym_in(ran, 'y')
-    Ax = I.call(op, [x], {})
+    def conv(space, v):
+        # an out-of-place `_call` may return a raw array: Operator.__call__
+        # converts it to a range element (C03-R6/R7)
+        from ..namodel import NA
+        if isinstance(v, NA) and not isinstance(space, NField):
+            return H.element(I, space, v)
+        return v
+    Ax = conv(ran, I.call(op, [x], {}))
     try:
         adj = I.getattr_value(op, 'adjoint')
     except PyRaise as e:
@@ -189,7 +250,7 @@ def evaluate(model, build):
     res['adj_dom'] = I.getattr_value(adj, 'domain')
     res['adj_ran'] = I.getattr_value(adj, 'range')
     try:
-        Aty = I.call(adj, [y], {})
+        Aty = conv(dom, I.call(adj, [y], {}))
     except PyRaise as e:
         res['outcome'] = 'adjoint(y) raises %s' % e.name
         res['node'] = e.node
@@ -205,11 +266,19 @@ def evaluate(model, build):
     return res
 
 
+def _where(model, name):
+    import re
+    m = re.match(r'(\w+)', name)
+    ci = model.classes.get(m.group(1)) if m else None
+    return (ci.rel, ci.node.lineno) if ci is not None else (DOPS, None)
+
+
 def run(rep, model):
     n = 0
     for name, b in builders(model).items():
         cons = name
         n += 1
+        DOPS, line0 = _where(model, name)
         try:
             r = evaluate(model, b)
         except Undecided as e:
@@ -238,9 +307,9 @@ def run(rep, model):
                 'Re ' if r.get('real_identity') else '', r['lhs'],
                 r['rhs']))
         if probs:
-            rep.violation('R8', cons, '; '.join(probs), DOPS)
+            rep.violation('R8', cons, '; '.join(probs), DOPS, line0)
         else:
             rep.holds('R8', cons, 'adjoint identity holds identically%s'
                       % (' (real parts)' if r.get('real_identity')
                          else ''))
-    rep.floor('R8', 'evaluated operator instances', n, 55)
+    rep.floor('R8', 'evaluated operator instances', n, 90)
